@@ -159,22 +159,33 @@ def _growth(ctx: Ctx):
         "bind_to_environ: path_info, script_name, query_args, url_scheme and (without hint) server_name are verdicts; the subdomain "
         "decision table and the mismatch warning are drift only",
     ]
-    for cfg in (("MCQ_envrt", "MCQ_bind") if q else ("MCT_envrt", "MCT_bind")):
-        ctx.model_check(AREA, "MCEnvRT", cfg, timeout=3000)
-    r = tlc.run_tlc(AREA, "MCEnvRT", "MCQ_envrt_orig", workers=ctx.workers, tmp=ctx.tmp, allow_violation=True, timeout=1200)
+    # the five independent TLC runs of this part are started together (JVM start-up dominates the small ones)
+    import concurrent.futures as cf
+    xcfg = "MCX_envrt" if q else "MCX_envrt3"
+    w = max(1, ctx.workers // 2)
+    with cf.ThreadPoolExecutor(max_workers=5) as ex:
+        f_mc = [ex.submit(ctx.model_check, AREA, "MCEnvRT", cfg, timeout=3000, workers=w)
+                for cfg in (("MCQ_envrt", "MCQ_bind") if q else ("MCT_envrt", "MCT_bind"))]
+        f_orig = ex.submit(tlc.run_tlc, AREA, "MCEnvRT", "MCQ_envrt_orig", workers=1, tmp=ctx.tmp, allow_violation=True, timeout=1200)
+        f_x1 = ex.submit(ctx.export, AREA, "MCEnvRT", xcfg, count_states=False, timeout=3000)
+        f_x2 = ex.submit(ctx.export, AREA, "MCEnvRT", "MCX_bind", count_states=False, timeout=3000)
+        for f in f_mc:
+            f.result()
+        r = f_orig.result()
+        tab_env, tab_bind = f_x1.result(), f_x2.result()
     ctx.notes["orig_from_environ_model_violates"] = r.invariant_violated
     if not r.invariant_violated:
         raise tlc.MachineryError("MCEnvRT/MCQ_envrt_orig: the pre-fix from_environ model no longer violates the round trip (vacuity)")
     jobs = []
     base = {"pairs": [], "scheme": "http", "hostU": "h.example", "hostA": "h.example", "use_ascii_host": True, "port": ""}
-    cfg = "MCX_envrt" if q else "MCX_envrt3"
-    tab = [v for v in ctx.export(AREA, "MCEnvRT", cfg, count_states=False, timeout=3000) if isinstance(v, dict) and "pi" in v]
+    cfg = xcfg
+    tab = [v for v in tab_env if isinstance(v, dict) and "pi" in v]
     ctx.notes["exported_" + cfg] = len(tab)
     ctx.notes["exported_envrt_in_domain"] = sum(1 for v in tab if v["pdom"]) + sum(1 for v in tab if v["rdom"])
     for v in tab:
         jobs.append(["envrt", dict(base, path=_txt(v["p"]), root="", src="model-path")])
         jobs.append(["envrt", dict(base, path="/x", root=_txt(v["r"]), src="model-root")])
-    tab = [v for v in ctx.export(AREA, "MCEnvRT", "MCX_bind", count_states=False, timeout=3000) if isinstance(v, dict) and "sub" in v]
+    tab = [v for v in tab_bind if isinstance(v, dict) and "sub" in v]
     ctx.notes["exported_MCX_bind"] = len(tab)
     k = 0
     for v in tab:
@@ -186,6 +197,8 @@ def _growth(ctx: Ctx):
         if q and k % 6:
             continue
         name, port = _split_host(host)
+        if not name:
+            continue
         jobs.append(["bind", dict(base, scheme=_txt(v["scheme"]), hostU=name, hostA=name, port=port, path="/p", root="", hm=False,
                                   arg=arg, ws=False, src="model")])
     rng = random.Random(ctx.seed * 7919 + 16)
